@@ -254,3 +254,44 @@ func takesLock(f *ssa.Function) bool {
 	}
 	return false
 }
+
+// R09.13: on Linux the startup routing file is written after everything else.
+func ruleLinuxStartupRoutingLast(p *Prog, r *Report, rule string) {
+	r.rule(rule, "Linux: the start-up routing configuration is copied to the device (writeStartupRouting) only after every other command of the run was accepted: in (*linux.State).ApplyCommands no call that can send to the device is reachable after the call of writeStartupRouting. A failure in the iptables phase aborts the run; with the routing file already written the device would come up with routes of a run that was reported as failed.")
+	fn := p.Fn("(*linux.State).ApplyCommands")
+	save := p.Fn("(*linux.State).writeStartupRouting")
+	if fn == nil || save == nil {
+		r.fail(rule, "anchor|(*linux.State).ApplyCommands / writeStartupRouting", "", "not found", "")
+		return
+	}
+	cg := p.CG()
+	var saves []*callSite
+	for _, cs := range callsOf(fn) {
+		for _, cal := range calleesOfSite(p, cs) {
+			if cal == save {
+				saves = append(saves, cs)
+			}
+		}
+	}
+	for i, sv := range saves {
+		bad := ""
+		for _, cs := range callsOf(fn) {
+			if cs.In == sv.In || !ireach(sv.In, cs.In) {
+				continue
+			}
+			isSave := false
+			for _, cal := range calleesOfSite(p, cs) {
+				if cal == save {
+					isSave = true
+				}
+			}
+			if !isSave && reachesPrimitive(p, cg, fn, cs) {
+				bad = p.ipos(cs.In)
+			}
+		}
+		_, plain := sv.In.(*ssa.Call)
+		r.add(rule, fmt.Sprintf("startup-routing-last|%d", i+1), p.ipos(sv.In), "writeStartupRouting is a plain call with nothing sent after it", plain && bad == "",
+			"something is sent to the device after the routing file was written ("+bad+"): a failure there leaves the saved routes of a failed run")
+	}
+	r.floor(rule, "calls of writeStartupRouting in ApplyCommands", len(saves), 1)
+}
